@@ -115,6 +115,10 @@ func c01(r *core.Report) {
 	// ---- C01-BORROW-RECV
 	r.Rule("C01-BORROW-RECV", "no alias of a received message's payload is written or outlives the callback", 9)
 	ruleBorrowRecv(r, h, bw, "C01-BORROW-RECV")
+	// ---- C01-DELIVER-OWNED (shared with C14): a payload handed to a hub out of a buffer that other workers
+	// also fill reaches the callback with another message's bytes
+	r.Rule("C01-DELIVER-OWNED", "the payload a layer hands to a hub or queue is not backed by a slice held in shared state", 8)
+	ruleDeliverOwned(r, h, "C01-DELIVER-OWNED")
 
 	// ---- C01-FRAG-ID (shared with C10-ID-ATOMIC): no mixture of messages at the receiver needs unique
 	// fragment ids per (sender, destination)
